@@ -694,7 +694,7 @@ def run(ctx):
         variants = (('alias', 'CallerUntouched'), ('prefix', None), ('actswap', None),
                     ('actfallback', 'ActDifference'))
         with cf.ThreadPoolExecutor(max_workers=7) as ex:
-            f_route = ex.submit(ctx.model, 'MC_Reaction', 'MC_Reaction_route', 6)
+            f_route = ex.submit(ctx.model, 'MC_Reaction', ctx.pick('MC_Reaction_route', 'MC_Reaction_route_full'), 6)
             f_alg = ex.submit(ctx.model, 'MC_Reaction', ctx.pick('MC_Reaction', 'MC_Reaction_full'), 8)
             f_var = [ex.submit(ctx.model, 'MC_Reaction', 'MC_Reaction_' + v, 1, False) for v, _ in variants]
             f_cases = ex.submit(core.tlc_cases, 'MC_Reaction', 'MC_Reaction_cases')
@@ -711,9 +711,9 @@ def run(ctx):
         spy = list(data)
         rnd.shuffle(spy)
         if ctx.quick:
-            spy = spy[:2000]
+            spy = spy[:1600]
         cases = [dict(c, kind='spy', cseed=rnd.randrange(1 << 30)) for c in spy]
-        n_real = ctx.pick(1200, 12000)
+        n_real = ctx.pick(1000, 12000)
         for i in range(n_real):
             cls = CLASSES[i % 3]
             mix = 'empirical' if cls == 'ChemkinReaction' else ['statmech', 'mixed', 'empirical', 'statmech'][(i // 3) % 4]
